@@ -39,10 +39,10 @@ theorem read_units {p : Pool} (hI : Inv p) {o : Nat} {b : Buf} (ho : p.objs o = 
   · obtain ⟨k, blk, hc, hblk, hlen, _, _⟩ := hI.owner_block ho (by omega)
     rw [hc, readUnits_heap hblk (by omega), units_long hc hblk]
 
-theorem Succ.refl' {p : Pool} (hI : Inv p) (T : Nat → Prop) : Succ p p T := hI.succ_refl T
+theorem _root_.StVerif.Pool.Succ.refl' {p : Pool} (hI : Inv p) (T : Nat → Prop) : Succ p p T := hI.succ_refl T
 
 /-- restrict the operand set when the dropped operands are in fact unchanged -/
-theorem Succ.shrink {p p' : Pool} {T T' : Nat → Prop} (h : Succ p p' T)
+theorem _root_.StVerif.Pool.Succ.shrink {p p' : Pool} {T T' : Nat → Prop} (h : Succ p p' T)
     (hx : ∀ x, T x → ¬ T' x → p'.objs x = p.objs x ∧ view p' x = view p x) : Succ p p' T' := by
   refine ⟨h.inv, h.L, h.failAt, fun x hnx => ?_, fun x hnx => ?_⟩
   · by_cases ht : T x
@@ -52,7 +52,7 @@ theorem Succ.shrink {p p' : Pool} {T T' : Nat → Prop} (h : Succ p p' T)
     · exact (hx x ht hnx).2
     · exact h.view x ht
 
-theorem Succ.trans' {p p₁ p₂ : Pool} {T₁ T₂ T : Nat → Prop} (h₁ : Succ p p₁ T₁) (h₂ : Succ p₁ p₂ T₂)
+theorem _root_.StVerif.Pool.Succ.trans' {p p₁ p₂ : Pool} {T₁ T₂ T : Nat → Prop} (h₁ : Succ p p₁ T₁) (h₂ : Succ p₁ p₂ T₂)
     (m₁ : ∀ x, T₁ x → T x) (m₂ : ∀ x, T₂ x → T x) : Succ p p₂ T :=
   (h₁.mono m₁).trans (h₂.mono m₂)
 
@@ -305,5 +305,306 @@ theorem ctorText_spec {p : Pool} (hI : Inv p) (hF : p.failAt = none) {o : Nat}
     refine ⟨ht, p3, ctorThen_throw h1 h2 h3, ?_, q3, ?_, f3⟩
     · exact Succ.trans' (Succ.trans' s1 s2 (fun x h => Or.inl h) (fun x h => Or.inr h)) s3 (fun x h => h) (fun x h => Or.inl h)
     · rw [s3.objs tmpA (fun h => hoA h.symm)]; exact a2
+
+
+/-! ### concatenation -/
+
+theorem tmpA_ne_tmpB : tmpA ≠ tmpB := by decide
+theorem tmpB_ne_tmpA : tmpB ≠ tmpA := by decide
+
+/-- `operator+(const string&, const string&)` into the dead id `d`; `l` and `r` may be the same object -/
+theorem concatInto_spec {p : Pool} (hI : Inv p) (hF : p.failAt = none) {d l r : Nat} {bl br : Buf}
+    (hd : p.objs d = none) (hl : p.objs l = some bl) (hr : p.objs r = some br) (hA : p.objs tmpA = none) (hdA : d ≠ tmpA) :
+    ∃ p', concatInto d l r p = .ok () p' ∧ Succ p p' (fun x => x = d ∨ x = tmpA) ∧ p'.objs tmpA = none ∧ p'.failAt = none ∧
+      view p' d = some ((units p bl ++ units p br).length, units p bl ++ units p br) := by
+  obtain ⟨p1, h1, s1, q1, f1⟩ := fresh_spec hI hF hA (units p bl ++ units p br)
+  obtain ⟨bA, hbA⟩ := alive_of_view q1
+  have hd1 : p1.objs d = none := by rw [s1.objs d hdA]; exact hd
+  obtain ⟨p2, h2, s2, ⟨q2a, q2b⟩, f2⟩ := step s1.inv f1 (.ctorMove d tmpA) ⟨hd1, bA, hbA⟩
+  obtain ⟨p3, h3, s3, q3, f3⟩ := dtor_step s2.inv f2 (alive_of_view q2b)
+  refine ⟨p3, ?_, ?_, q3, f3, ?_⟩
+  · simp only [Op.run] at h2
+    have hw : withTemp tmpA (ctorMove d tmpA) p1 = .ok () p3 := withTemp_ok h2 h3
+    simp [concatInto, getObj_some hl, getObj_some hr, read_units hI hl, read_units hI hr, h1, hw]
+  · exact Succ.trans' (Succ.trans' s1 s2 (fun x h => Or.inr h) (fun x h => h)) s3 (fun x h => h) (fun x h => Or.inr h)
+  · rw [s3.view d (by simpa using hdA), q2a, q1]
+
+/-- `o += s` (`s` may be `o` itself) -/
+theorem appendStr_spec {p : Pool} (hI : Inv p) (hF : p.failAt = none) {o s : Nat} {bo bs : Buf}
+    (ho : p.objs o = some bo) (hs : p.objs s = some bs) (hA : p.objs tmpA = none) (hB : p.objs tmpB = none)
+    (hoA : o ≠ tmpA) (hoB : o ≠ tmpB) :
+    ∃ p', appendStr o s p = .ok () p' ∧ Succ p p' (fun x => x = o ∨ x = tmpA ∨ x = tmpB) ∧
+      p'.objs tmpA = none ∧ p'.objs tmpB = none ∧ p'.failAt = none ∧
+      view p' o = some ((units p bo ++ units p bs).length, units p bo ++ units p bs) := by
+  obtain ⟨p1, h1, s1, a1, f1, v1⟩ := concatInto_spec hI hF hB ho hs hA tmpB_ne_tmpA
+  obtain ⟨bB, hbB⟩ := alive_of_view v1
+  have ho1 : p1.objs o = some bo := by
+    rw [s1.objs o (by intro h; rcases h with h | h; exact hoB h; exact hoA h)]; exact ho
+  obtain ⟨p2, h2, s2, ⟨q2a, q2b⟩, f2⟩ := step s1.inv f1 (.assignMove o tmpB) ⟨⟨bo, ho1⟩, bB, hbB⟩
+  have hB2 : ∃ b, p2.objs tmpB = some b := by rw [view_of_alive ho1] at q2b; exact alive_of_view q2b
+  obtain ⟨p3, h3, s3, q3, f3⟩ := dtor_step s2.inv f2 hB2
+  refine ⟨p3, ?_, ?_, ?_, q3, f3, ?_⟩
+  · simp only [Op.run] at h2
+    have hw : withTemp tmpB (assignMove o tmpB) p1 = .ok () p3 := withTemp_ok h2 h3
+    simp [appendStr, h1, hw]
+  · refine Succ.trans' (Succ.trans' s1 s2 (T := fun x => x = o ∨ x = tmpA ∨ x = tmpB) ?_ ?_) s3 (fun x h => h) (fun x h => Or.inr (Or.inr h))
+    · intro x h; rcases h with h | h; exact Or.inr (Or.inr h); exact Or.inr (Or.inl h)
+    · intro x h; rcases h with h | h; exact Or.inl h; exact Or.inr (Or.inr h)
+  · rw [s3.objs tmpA tmpA_ne_tmpB, s2.objs tmpA (by simp only [Op.T]; intro h; rcases h with h | h; exact hoA h.symm; exact tmpA_ne_tmpB h)]
+    exact a1
+  · rw [s3.view o (by simpa using hoB), q2a, v1]
+
+theorem tmpD_ne_tmpA : tmpD ≠ tmpA := by decide
+theorem tmpD_ne_tmpB : tmpD ≠ tmpB := by decide
+theorem tmpD_ne_tmpC : tmpD ≠ tmpC := by decide
+
+/-- `o += cstr`: the text is converted into a temporary string first; a conversion that throws leaves everything as it was -/
+theorem appendText_spec {p : Pool} (hI : Inv p) (hF : p.failAt = none) {o : Nat} {bo : Buf}
+    (ho : p.objs o = some bo) (hT : TempsDead p) (hoT : ¬ isTemp o) (us : List Nat) (m : Mode) :
+    (¬ setThrows m us ∧ ∃ p', appendText o us m p = .ok () p' ∧ Succ p p' (fun x => x = o ∨ isTemp x) ∧ TempsDead p' ∧ p'.failAt = none ∧
+        view p' o = some ((units p bo ++ setVal m us).length, units p bo ++ setVal m us)) ∨
+    (setThrows m us ∧ ∃ p', appendText o us m p = .throw .unicodeError p' ∧ Succ p p' isTemp ∧ TempsDead p' ∧ p'.failAt = none) := by
+  have hoA : o ≠ tmpA := fun h => hoT (Or.inl h)
+  have hoB : o ≠ tmpB := fun h => hoT (Or.inr (Or.inl h))
+  have hoC : o ≠ tmpC := fun h => hoT (Or.inr (Or.inr (Or.inl h)))
+  have hoD : o ≠ tmpD := fun h => hoT (Or.inr (Or.inr (Or.inr h)))
+  have dA := hT tmpA (Or.inl rfl)
+  have dB := hT tmpB (Or.inr (Or.inl rfl))
+  have dC := hT tmpC (Or.inr (Or.inr (Or.inl rfl)))
+  have dD := hT tmpD (Or.inr (Or.inr (Or.inr rfl)))
+  rcases ctorText_spec hI hF dD dA dC tmpD_ne_tmpA tmpD_ne_tmpC us m with ⟨hn, p1, h1, s1, a1, c1, f1, v1⟩ | ⟨ht, p1, h1, s1, d1, a1, f1⟩
+  · left
+    refine ⟨hn, ?_⟩
+    obtain ⟨bD, hbD⟩ := alive_of_view v1
+    have hu : units p1 bD = setVal m us := units_of_view hbD v1
+    have nT1 : ∀ x, x ≠ tmpD → x ≠ tmpA → x ≠ tmpC → p1.objs x = p.objs x := fun x h1 h2 h3 =>
+      s1.objs x (by intro h; rcases h with h | h | h <;> contradiction)
+    have ho1 : p1.objs o = some bo := by rw [nT1 o hoD hoA hoC]; exact ho
+    have hB1 : p1.objs tmpB = none := by rw [nT1 tmpB (by decide) (by decide) (by decide)]; exact dB
+    have hv1 : units p1 bo = units p bo := by
+      have := s1.view o (by intro h; rcases h with h | h | h <;> contradiction)
+      rw [view_of_alive ho1, view_of_alive ho] at this; simpa using this
+    obtain ⟨p2, h2, s2, a2, b2, f2, v2⟩ := appendStr_spec s1.inv f1 ho1 hbD a1 hB1 hoA hoB
+    have hD2 : p2.objs tmpD = some bD := by
+      rw [s2.objs tmpD (by intro h; rcases h with h | h | h; exact hoD h.symm; exact tmpD_ne_tmpA h; exact tmpD_ne_tmpB h)]; exact hbD
+    obtain ⟨p3, h3, s3, q3, f3⟩ := dtor_step s2.inv f2 ⟨bD, hD2⟩
+    refine ⟨p3, ?_, ?_, ?_, f3, ?_⟩
+    · have hw : withTemp tmpD (appendStr o tmpD) p1 = .ok () p3 := withTemp_ok h2 h3
+      have : appendText o us m = (do ctorText tmpD us m; withTemp tmpD (appendStr o tmpD)) := rfl
+      rw [this]; simp [h1, hw]
+    · refine Succ.trans' (Succ.trans' s1 s2 (T := fun x => x = o ∨ isTemp x) ?_ ?_) s3 (fun x h => h) (fun x h => Or.inr (Or.inr (Or.inr (Or.inr h))))
+      · intro x h; rcases h with h | h | h
+        · exact Or.inr (Or.inr (Or.inr (Or.inr h)))
+        · exact Or.inr (Or.inl h)
+        · exact Or.inr (Or.inr (Or.inr (Or.inl h)))
+      · intro x h; rcases h with h | h | h
+        · exact Or.inl h
+        · exact Or.inr (Or.inl h)
+        · exact Or.inr (Or.inr (Or.inl h))
+    · intro x hx
+      rcases hx with h | h | h | h
+      · subst h; rw [s3.objs tmpA (fun h => tmpD_ne_tmpA h.symm)]; exact a2
+      · subst h; rw [s3.objs tmpB (fun h => tmpD_ne_tmpB h.symm)]; exact b2
+      · subst h; rw [s3.objs tmpC (fun h => tmpD_ne_tmpC h.symm), s2.objs tmpC (by intro h; rcases h with h | h | h; exact hoC h.symm; exact tmpC_ne_tmpA h; exact absurd h (by decide))]; exact c1
+      · subst h; exact q3
+    · rw [s3.view o (by simpa using hoD), v2, hv1, hu]
+  · right
+    refine ⟨ht, p1, ?_, ?_, ?_, f1⟩
+    · have : appendText o us m = (do ctorText tmpD us m; withTemp tmpD (appendStr o tmpD)) := rfl
+      rw [this]; simp [h1]
+    · exact s1.mono (fun x h => by rcases h with h | h; exact Or.inr (Or.inr (Or.inr h)); exact Or.inl h)
+    · intro x hx
+      rcases hx with h | h | h | h
+      · subst h; exact a1
+      · subst h; rw [s1.objs tmpB (by intro h; rcases h with h | h <;> exact absurd h (by decide))]; exact dB
+      · subst h; rw [s1.objs tmpC (by intro h; rcases h with h | h <;> exact absurd h (by decide))]; exact dC
+      · subst h; exact d1
+
+
+/-! ### appending a code point -/
+
+theorem writeUtf8_length {ch : Nat} {bytes : List Nat} (h : Utf.writeUtf8 ch = some bytes) :
+    bytes.length = Utf.utf8Measure ch := by
+  unfold Utf.writeUtf8 at h
+  unfold Utf.utf8Measure
+  split at h
+  · cases h; simp [*]
+  · split at h
+    · cases h; simp [*]
+    · split at h
+      · cases h; simp [*]
+      · split at h
+        · cases h; simp [*]
+        · cases h
+
+/-- `operator+(const string&, char32_t)` into the dead id `d` -/
+theorem concatCharInto_spec {p : Pool} (hI : Inv p) (hF : p.failAt = none) {d l : Nat} {bl : Buf}
+    (hd : p.objs d = none) (hl : p.objs l = some bl) (hA : p.objs tmpA = none) (hdA : d ≠ tmpA) (hlA : l ≠ tmpA) (ch : Nat) :
+    ((Utf.writeUtf8 ch).isSome ∧ ∃ p', concatCharInto d l ch p = .ok () p' ∧ Succ p p' (fun x => x = d ∨ x = tmpA) ∧
+        p'.objs tmpA = none ∧ p'.failAt = none ∧ ∃ w, view p' d = some w) ∨
+    (Utf.writeUtf8 ch = none ∧ ∃ p', concatCharInto d l ch p = .throw .unicodeError p' ∧ Succ p p' (· = tmpA) ∧
+        p'.objs tmpA = none ∧ p'.failAt = none) := by
+  have hlen : (units p bl).length = bl.size := (hI.view_length (view_of_alive hl)).1
+  obtain ⟨p1, h1, s1, q1, f1⟩ := step hI hF (.ctorDefault tmpA) hA
+  obtain ⟨b1, hb1⟩ := alive_of_view q1
+  obtain ⟨p2, h2, s2, ⟨us2, hus2, q2⟩, f2⟩ := step s1.inv f1 (.allocate tmpA ((units p bl).length + Utf.utf8Measure ch)) ⟨b1, hb1⟩
+  obtain ⟨b2, hb2⟩ := alive_of_view q2
+  have hsz2 : b2.size = (units p bl).length + Utf.utf8Measure ch := view_size hb2 q2
+  obtain ⟨p3, h3, s3, ⟨sz3, old3, q3a, _, q3c⟩, f3⟩ := step s2.inv f2 (.writeData tmpA 0 (units p bl)) ⟨b2, hb2, by omega⟩
+  obtain ⟨b3, hb3⟩ := alive_of_view q3c
+  have hsz3 : b3.size = (units p bl).length + Utf.utf8Measure ch := by
+    rw [q2] at q3a
+    have : (units p bl).length + Utf.utf8Measure ch = sz3 := by simpa using congrArg (fun o => o.map Prod.fst) q3a
+    rw [view_size hb3 q3c, this]
+  simp only [Op.run] at h1 h2 h3
+  cases hw : Utf.writeUtf8 ch with
+  | some bytes =>
+    left
+    have hbl : bytes.length = Utf.utf8Measure ch := writeUtf8_length hw
+    obtain ⟨p4, h4, s4, ⟨sz4, old4, q4a, _, q4c⟩, f4⟩ := step s3.inv f3 (.writeData tmpA (units p bl).length bytes) ⟨b3, hb3, by omega⟩
+    obtain ⟨b4, hb4⟩ := alive_of_view q4c
+    have hd4 : p4.objs d = none := by
+      rw [s4.objs d hdA, s3.objs d hdA, s2.objs d hdA, s1.objs d hdA]; exact hd
+    obtain ⟨p5, h5, s5, ⟨q5a, q5b⟩, f5⟩ := step s4.inv f4 (.ctorMove d tmpA) ⟨hd4, b4, hb4⟩
+    obtain ⟨p6, h6, s6, q6, f6⟩ := dtor_step s5.inv f5 (alive_of_view q5b)
+    simp only [Op.run] at h4 h5
+    refine ⟨rfl, p6, ?_, ?_, q6, f6, ?_⟩
+    · have hbody : (do allocate tmpA ((units p bl).length + Utf.utf8Measure ch); writeData tmpA 0 (units p bl);
+                       (match Utf.writeUtf8 ch with
+                        | some bytes => do writeData tmpA (units p bl).length bytes; ctorMove d tmpA
+                        | none => throwE .unicodeError : M Unit)) p1 = .ok () p5 := by
+        simp [h2, h3, hw, h4, h5]
+      have hwt := withTemp_ok hbody h6
+      simp only [concatCharInto, bind_apply, getObj_some hl, read_units hI hl, h1]
+      exact hwt
+    · have s14 : Succ p p4 (fun x => x = d ∨ x = tmpA) :=
+        (((s1.trans s2).trans s3).trans s4).mono (fun x h => Or.inr h)
+      exact Succ.trans' (Succ.trans' s14 s5 (fun x h => h) (fun x h => h)) s6 (fun x h => h) (fun x h => Or.inr h)
+    · rw [s6.view d (by simpa using hdA), q5a, q4c]; exact ⟨_, rfl⟩
+  | none =>
+    right
+    obtain ⟨p4, h4, s4, q4, f4⟩ := dtor_step s3.inv f3 ⟨b3, hb3⟩
+    refine ⟨rfl, p4, ?_, ((s1.trans s2).trans s3).trans s4, q4, f4⟩
+    have hbody : (do allocate tmpA ((units p bl).length + Utf.utf8Measure ch); writeData tmpA 0 (units p bl);
+                     (match Utf.writeUtf8 ch with
+                      | some bytes => do writeData tmpA (units p bl).length bytes; ctorMove d tmpA
+                      | none => throwE .unicodeError : M Unit)) p1 = .throw .unicodeError p3 := by
+      simp [h2, h3, hw]
+    have hwt := withTemp_throw hbody h4
+    simp only [concatCharInto, bind_apply, getObj_some hl, read_units hI hl, h1]
+    exact hwt
+
+/-- `o += ch` -/
+theorem appendChar_spec {p : Pool} (hI : Inv p) (hF : p.failAt = none) {o : Nat} {bo : Buf}
+    (ho : p.objs o = some bo) (hA : p.objs tmpA = none) (hB : p.objs tmpB = none) (hoA : o ≠ tmpA) (hoB : o ≠ tmpB) (ch : Nat) :
+    ((Utf.writeUtf8 ch).isSome ∧ ∃ p', appendChar o ch p = .ok () p' ∧ Succ p p' (fun x => x = o ∨ x = tmpA ∨ x = tmpB) ∧
+        p'.objs tmpA = none ∧ p'.objs tmpB = none ∧ p'.failAt = none) ∨
+    (Utf.writeUtf8 ch = none ∧ ∃ p', appendChar o ch p = .throw .unicodeError p' ∧ Succ p p' (· = tmpA) ∧
+        p'.objs tmpA = none ∧ p'.objs tmpB = none ∧ p'.failAt = none) := by
+  rcases concatCharInto_spec hI hF hB ho hA tmpB_ne_tmpA hoA ch with ⟨hw, p1, h1, s1, a1, f1, ⟨w1, v1⟩⟩ | ⟨hw, p1, h1, s1, a1, f1⟩
+  · left
+    refine ⟨hw, ?_⟩
+    obtain ⟨bB, hbB⟩ := alive_of_view v1
+    have ho1 : p1.objs o = some bo := by
+      rw [s1.objs o (by intro h; rcases h with h | h; exact hoB h; exact hoA h)]; exact ho
+    obtain ⟨p2, h2, s2, ⟨q2a, q2b⟩, f2⟩ := step s1.inv f1 (.assignMove o tmpB) ⟨⟨bo, ho1⟩, bB, hbB⟩
+    have hB2 : ∃ b, p2.objs tmpB = some b := by rw [view_of_alive ho1] at q2b; exact alive_of_view q2b
+    obtain ⟨p3, h3, s3, q3, f3⟩ := dtor_step s2.inv f2 hB2
+    refine ⟨p3, ?_, ?_, ?_, q3, f3⟩
+    · simp only [Op.run] at h2
+      have hwt : withTemp tmpB (assignMove o tmpB) p1 = .ok () p3 := withTemp_ok h2 h3
+      simp [appendChar, h1, hwt]
+    · refine Succ.trans' (Succ.trans' s1 s2 (T := fun x => x = o ∨ x = tmpA ∨ x = tmpB) ?_ ?_) s3 (fun x h => h) (fun x h => Or.inr (Or.inr h))
+      · intro x h; rcases h with h | h; exact Or.inr (Or.inr h); exact Or.inr (Or.inl h)
+      · intro x h; rcases h with h | h; exact Or.inl h; exact Or.inr (Or.inr h)
+    · rw [s3.objs tmpA tmpA_ne_tmpB, s2.objs tmpA (by simp only [Op.T]; intro h; rcases h with h | h; exact hoA h.symm; exact tmpA_ne_tmpB h)]
+      exact a1
+  · right
+    refine ⟨hw, p1, by simp [appendChar, h1], s1, a1, ?_, f1⟩
+    rw [s1.objs tmpB tmpB_ne_tmpA]; exact hB
+
+/-! ### values converted from another encoding -/
+
+/-- a conversion (C01–C03) either yields a value or throws `unicode_error` before anything is touched -/
+def ConvOk (c : Outcome (List Nat)) : Prop := (∃ v, c = .ok v) ∨ c = .throw .unicodeError
+
+theorem setConverted_spec {p : Pool} (hI : Inv p) (hF : p.failAt = none) {o : Nat} {bo : Buf}
+    (ho : p.objs o = some bo) (hA : p.objs tmpA = none) (hoA : o ≠ tmpA) {c : Outcome (List Nat)} (hc : ConvOk c) :
+    (∃ v p', c = .ok v ∧ setConverted o c p = .ok () p' ∧ Succ p p' (fun x => x = o ∨ x = tmpA) ∧ p'.objs tmpA = none ∧
+        p'.failAt = none ∧ view p' o = some (v.length, v)) ∨
+    (c = .throw .unicodeError ∧ setConverted o c p = .throw .unicodeError p) := by
+  rcases hc with ⟨v, rfl⟩ | rfl
+  · left
+    obtain ⟨p', h1, s1, a1, f1, v1⟩ := assignFromTemp_spec hI hF ho hA hoA v
+    exact ⟨v, p', rfl, by simpa [setConverted] using h1, s1, a1, f1, v1⟩
+  · right
+    exact ⟨rfl, rfl⟩
+
+/-- `o = ST::string(text in another encoding)` -/
+theorem assignConverted_spec {p : Pool} (hI : Inv p) (hF : p.failAt = none) {o : Nat} {bo : Buf}
+    (ho : p.objs o = some bo) (hA : p.objs tmpA = none) (hB : p.objs tmpB = none) (hoA : o ≠ tmpA) (hoB : o ≠ tmpB)
+    {c : Outcome (List Nat)} (hc : ConvOk c) :
+    (∃ v p', c = .ok v ∧ assignConverted o c p = .ok () p' ∧ Succ p p' (fun x => x = o ∨ x = tmpA ∨ x = tmpB) ∧
+        p'.objs tmpA = none ∧ p'.objs tmpB = none ∧ p'.failAt = none ∧ view p' o = some (v.length, v)) ∨
+    (c = .throw .unicodeError ∧ ∃ p', assignConverted o c p = .throw .unicodeError p' ∧ Succ p p' (· = tmpB) ∧
+        p'.objs tmpA = none ∧ p'.objs tmpB = none ∧ p'.failAt = none) := by
+  obtain ⟨p1, h1, s1, q1, f1⟩ := step hI hF (.ctorDefault tmpB) hB
+  simp only [Op.run] at h1
+  obtain ⟨bB, hbB⟩ := alive_of_view q1
+  have hA1 : p1.objs tmpA = none := by rw [s1.objs tmpA tmpA_ne_tmpB]; exact hA
+  have ho1 : p1.objs o = some bo := by rw [s1.objs o hoB]; exact ho
+  rcases setConverted_spec s1.inv f1 hbB hA1 tmpB_ne_tmpA hc with ⟨v, p2, rfl, h2, s2, a2, f2, v2⟩ | ⟨rfl, h2⟩
+  · left
+    obtain ⟨bB2, hbB2⟩ := alive_of_view v2
+    have ho2 : p2.objs o = some bo := by
+      rw [s2.objs o (by intro h; rcases h with h | h; exact hoB h; exact hoA h)]; exact ho1
+    obtain ⟨p3, h3, s3, ⟨q3a, q3b⟩, f3⟩ := step s2.inv f2 (.assignMove o tmpB) ⟨⟨bo, ho2⟩, bB2, hbB2⟩
+    have hB3 : ∃ b, p3.objs tmpB = some b := by rw [view_of_alive ho2] at q3b; exact alive_of_view q3b
+    obtain ⟨p4, h4, s4, q4, f4⟩ := dtor_step s3.inv f3 hB3
+    simp only [Op.run] at h3
+    refine ⟨v, p4, rfl, ?_, ?_, ?_, q4, f4, ?_⟩
+    · have hbody : (do setConverted tmpB (.ok v); assignMove o tmpB) p1 = .ok () p3 := by simp [h2, h3]
+      have hwt := withTemp_ok hbody h4
+      simp only [assignConverted, bind_apply, h1]; exact hwt
+    · refine Succ.trans' (Succ.trans' (Succ.trans' s1 s2 (T := fun x => x = o ∨ x = tmpA ∨ x = tmpB) ?_ ?_) s3 (fun x h => h) ?_) s4 (fun x h => h) (fun x h => Or.inr (Or.inr h))
+      · intro x h; exact Or.inr (Or.inr h)
+      · intro x h; rcases h with h | h; exact Or.inr (Or.inr h); exact Or.inr (Or.inl h)
+      · intro x h; rcases h with h | h; exact Or.inl h; exact Or.inr (Or.inr h)
+    · rw [s4.objs tmpA tmpA_ne_tmpB, s3.objs tmpA (by simp only [Op.T]; intro h; rcases h with h | h; exact hoA h.symm; exact tmpA_ne_tmpB h)]
+      exact a2
+    · rw [s4.view o (by simpa using hoB), q3a, v2]
+  · right
+    obtain ⟨p3, h3, s3, q3, f3⟩ := dtor_step s1.inv f1 ⟨bB, hbB⟩
+    refine ⟨rfl, p3, ?_, s1.trans s3, ?_, q3, f3⟩
+    · have hbody : (do setConverted tmpB (.throw .unicodeError); assignMove o tmpB) p1 = .throw .unicodeError p1 := by simp [h2]
+      have hwt := withTemp_throw hbody h3
+      simp only [assignConverted, bind_apply, h1]; exact hwt
+    · rw [s3.objs tmpA tmpA_ne_tmpB]; exact hA1
+
+/-! ### results of const operations -/
+
+/-- new objects holding computed values: every listed id is dead and they are pairwise distinct -/
+theorem deriveAll_spec {p : Pool} (hI : Inv p) (hF : p.failAt = none) (ds : List (Nat × List Nat))
+    (hdead : ∀ d ∈ ds.map (·.1), p.objs d = none) (hnd : (ds.map (·.1)).Nodup) :
+    ∃ p', deriveAll ds p = .ok () p' ∧ Succ p p' (fun x => x ∈ ds.map (·.1)) ∧ p'.failAt = none ∧
+      ∀ dv ∈ ds, view p' dv.1 = some (dv.2.length, dv.2) := by
+  induction ds generalizing p with
+  | nil => exact ⟨p, rfl, hI.succ_refl _, hF, by simp⟩
+  | cons dv rest ih =>
+    obtain ⟨d, v⟩ := dv
+    simp only [List.map_cons, List.nodup_cons] at hnd
+    obtain ⟨p1, h1, s1, q1, f1⟩ := fresh_spec hI hF (hdead d (by simp)) v
+    have hdead1 : ∀ x ∈ rest.map (·.1), p1.objs x = none := by
+      intro x hx
+      rw [s1.objs x (by rintro rfl; exact hnd.1 hx)]
+      exact hdead x (by simp [hx])
+    obtain ⟨p2, h2, s2, f2, v2⟩ := ih s1.inv f1 hdead1 hnd.2
+    refine ⟨p2, by simp [deriveAll, h1, h2], ?_, f2, ?_⟩
+    · exact Succ.trans' s1 s2 (fun x h => by simp [h]) (fun x h => by simp only [List.map_cons, List.mem_cons]; exact Or.inr h)
+    · intro dv hdv
+      simp only [List.mem_cons] at hdv
+      rcases hdv with rfl | hdv
+      · rw [s2.view d (fun h => hnd.1 h)]; exact q1
+      · exact v2 dv hdv
 
 end StVerif.StrPool
